@@ -272,9 +272,14 @@ Definition last_obs_ans (l : list obs) : option N :=
   match rev l with OAns s _ :: _ => Some s | _ => None end.
 
 (* monitor (a) on the implementation's own observations: when the history ends settled
-   and with a query, the last notification received shows the state answered *)
-Definition impl_last_ok (h : hub) (o : list obs) : bool :=
-  if settled h then
+   (as many deliveries received as reports replaced the stored object; connection and
+   freshness as in `settled`) and with a query, the last notification received shows the state answered *)
+Definition impl_settled (h : hub) (es : list ev) (o : list obs) : bool :=
+  Nat.eqb (length (filter (fun x => match x with ORepl true => true | _ => false end) o))
+          (length (filter (fun e => match e with EDeliver _ => true | _ => false end) es))
+  && (negb (conn h) || fresh h).
+Definition impl_last_ok (h : hub) (es : list ev) (o : list obs) : bool :=
+  if impl_settled h es o then
     match last_obs_ans o with
     | None => true
     | Some a => match last_obs_note_state o with
@@ -285,7 +290,7 @@ Definition impl_last_ok (h : hub) (o : list obs) : bool :=
   else true.
 
 (* terminal-state expectation on the implementation's observations: the answer to a
-   query that directly follows a well-formed report while the connection is registered *)
+   query while the connection is registered, against the connection's last (well-formed) report *)
 Fixpoint impl_terminal_ok (h : hub) (prev : option (N * err)) (es : list ev) (o : list obs) : bool :=
   match es with
   | [] => true
@@ -298,7 +303,7 @@ Fixpoint impl_terminal_ok (h : hub) (prev : option (N * err)) (es : list ev) (o 
                     else true
                 | _, _, _ => true
                 end in
-      ok && impl_terminal_ok (step h e) (match e with EReport s er => Some (s, er) | _ => None end) r (skipn k o)
+      ok && impl_terminal_ok (step h e) (match e with EReport s er => Some (s, er) | _ => prev end) r (skipn k o)
   end.
 
 Definition check_c18 (c : c18_case) : codes :=
@@ -310,6 +315,6 @@ Definition check_c18 (c : c18_case) : codes :=
       else (if overtaken l then [10] else [])
            ++ (if inverted l then [11] else [])
            ++ (if overtaken l || inverted l then [] else [13]))
-  ++ (if negb (wf_reports (k_evs c)) || impl_last_ok h (k_obs c) then []
+  ++ (if negb (wf_reports (k_evs c)) || impl_last_ok h (k_evs c) (k_obs c) then []
       else if inverted l then [] (* already reported as 11 by the order monitor *) else [12])
   ++ (if impl_terminal_ok h0 None (k_evs c) (k_obs c) then [] else [15]).
